@@ -626,6 +626,42 @@ def C14_failed_upload_deletes_a_file_it_did_not_create():
         H.secrets.token_hex = saved
         shutil.rmtree(d)
 
+@witness
+def C01_upload_handler_fails_before_returning_an_awaitable():
+    """An upload handler whose call raises (or that hands back a response object instead of a coroutine) must still be answered
+    with one response and a close: before 091b306 only RuntimeError was caught around the call; with a middleware chain the
+    exception ended in a done-callback and the connection stayed open for ever, without one it escaped from data_received."""
+    from nauyaca.server.protocol import GeminiServerProtocol
+    from nauyaca.protocol.response import GeminiResponse
+    class T:
+        def __init__(self): self.out = b""; self.closed = False
+        def write(self, b): self.out += bytes(b)
+        def close(self): self.closed = True
+        def is_closing(self): return self.closed
+        def get_extra_info(self, name, default=None): return ("192.0.2.1", 5) if name == "peername" else default
+    class Allow:
+        async def process_request(self, url, ip, fp=None): return True, None
+    class Raises:
+        def handle_upload(self, request): raise ValueError("cannot store")
+    class Returns:
+        def handle_upload(self, request): return GeminiResponse(20, "text/gemini", "stored")
+    async def one(up, mw):
+        loop = asyncio.get_running_loop(); loop.set_exception_handler(lambda l, c: None)
+        p = GeminiServerProtocol(lambda r: GeminiResponse(20, "text/plain", "x"), mw, up)
+        t = T(); p.connection_made(t)
+        escaped = False
+        try: p.data_received(b"titan://h.example/f.gmi;size=5;mime=text/gemini\r\nhello")
+        except Exception: escaped = True
+        for _ in range(50):
+            if t.closed: break
+            await asyncio.sleep(0.002)
+        if p.timeout_handle: p.timeout_handle.cancel()
+        head = t.out.split(b"\r\n")[0]
+        return escaped or not t.closed or not (len(head) >= 3 and head[:2].isdigit() and t.out.count(b"\r\n") == 1)
+    async def main():
+        return [await one(up, mw) for up in (Raises(), Returns()) for mw in (None, Allow())]
+    return any(asyncio.run(main()))
+
 # MAIN
 if __name__ == "__main__":
     names = sys.argv[1:] or sorted(W)
